@@ -242,6 +242,8 @@ def equilibrium (T : Mat) (allowNonErgodic : Bool) : Except Err (Option Vec) :=
     match ergodicMask T with
     | none => .error .value
     | some mask =>
+      -- a single marked state gives a 1×1 sub-matrix, which the eigen-solver refuses (`is_quadratic` is false for 1×1)
+      if (restrict T mask).length = 1 then .error .type else
       match stationary (rowNormalizeQ (restrict T mask)) with
       | none => .ok none
       | some v => let e := embed v mask; let s := e.sum; .ok (some (e.map (· / s)))
@@ -250,9 +252,10 @@ def equilibrium (T : Mat) (allowNonErgodic : Bool) : Except Err (Option Vec) :=
 def holdsPeq (T : Mat) (allowNonErgodic : Bool) (obs : Except Err Vec) : Bool :=
   let tol : Rat := (1 : Rat) / 1000000000
   match obs with
-  | .error e =>
-    -- rejected: must be non-ergodic with allow_non_ergodic = False (ValueError), or not a transition matrix
-    e == .value && ((!allowNonErgodic && !graphErgodic T) || !isTmat T)
+  | .error _ =>
+    -- a rejection (any error kind) is admissible when the input is not a transition matrix, when it is non-ergodic and
+    -- allow_non_ergodic = False, or when it is outside sentence 1 (the property speaks about *accepted* matrices there)
+    !isTmat T || (!allowNonErgodic && !graphErgodic T) || (allowNonErgodic && (uniqueLargestClosed T).isNone)
   | .ok p =>
     (allowNonErgodic || graphErgodic T) &&
     p.length == T.length &&
